@@ -11,3 +11,43 @@ M.contract('bridgepoint.oal.find_column', [('lexdata', STR), ('lexpos', INT)], r
                'column-counts-from-last-newline': "all(implies(0 <= k and k < lexpos and lexdata[k] == '\\n' and all(lexdata[i] != '\\n' for i in range(k + 1, lexpos)), "
                                                   "result == lexpos - k) for k in ints())"},
            modifies=[])
+
+# ---- token rules: every rule records where its token ends; rules whose token may contain line breaks advance the line counter by
+#      exactly that many lines and record the line the token ends on (schematic contracts, one per t_ rule of both lexers)
+import ast as _ast
+from pyvc.program import Program as _Program
+
+TOK = RefT('LexToken')
+M.fields({'LexToken.value': STR, 'LexToken.lexpos': INT, 'LexToken.endlexpos': INT, 'LexToken.lineno': INT, 'LexToken.endlineno': INT,
+          'LexToken.type': STR, 'LexToken.lexer': RefT('Lexer'), 'Lexer.lineno': INT, 'Lexer.filename': STR, 'Lexer.lexdata': STR,
+          'OALParser.keywords': SeqT(STR), 'ModelLoader.reserved': SeqT(STR)})
+M.uninterpreted('str_count', [STR, STR], INT)
+
+def _rules(mod, cls):
+    path, tree, src = _Program().load(mod)
+    for n in tree.body:
+        if isinstance(n, _ast.ClassDef) and n.name == cls:
+            for f in n.body:
+                if isinstance(f, _ast.FunctionDef) and f.name.startswith('t_') and f.name != 't_error':
+                    yield f.name, _ast.get_docstring(f) or ''
+
+# tokens that are dropped (layout and comments): the property says they produce no token
+_SKIPPED = {'t_COMMENT', 't_SL_STRING', 't_newline', 't_comment'}
+# tokens whose text may span several lines
+_MULTILINE = {'t_COMMENT', 't_SL_STRING', 't_TICKED_PHRASE', 't_END_FOR', 't_END_IF', 't_END_WHILE', 't_STRING', 't_comment'}
+for _mod, _cls in (('bridgepoint.oal', 'OALParser'), ('xtuml.load', 'ModelLoader')):
+    for _name, _doc in _rules(_mod, _cls):
+        _ens = {'end-position-is-start-plus-length': 't.endlexpos == t.lexpos + len(t.value)',
+                'token-text-and-start-untouched': 't.value == old(t.value) and t.lexpos == old(t.lexpos)'}
+        if _name == 't_newline':
+            _ens['line-counter-advances-by-the-newlines-consumed'] = 't.lexer.lineno == old(t.lexer.lineno) + len(t.value)'
+        elif _name in _MULTILINE and not (_cls == 'OALParser' and _name == 't_STRING'):
+            _ens['line-counter-advances-by-the-newlines-consumed'] = "t.lexer.lineno == old(t.lexer.lineno) + str_count(t.value, '\\n')"
+        else:
+            _ens['line-counter-untouched'] = 't.lexer.lineno == old(t.lexer.lineno)'
+        if _cls == 'OALParser' and _name in ('t_TICKED_PHRASE', 't_END_FOR', 't_END_IF', 't_END_WHILE'):
+            _ens['end-line-is-the-line-the-token-ends-on'] = "t.endlineno == old(t.lexer.lineno) + str_count(t.value, '\\n')"
+        _ens['layout-produces-no-token' if _name in _SKIPPED else 'returns-the-token'] = 'result is None' if _name in _SKIPPED else 'result is t'
+        M.contract('%s.%s.%s' % (_mod, _cls, _name), [('self', RefT(_cls)), ('t', TOK)], returns=TOK,
+                   requires={'token': 't is not None and t.lexer is not None'}, ensures=_ens,
+                   modifies=['t.endlexpos', 't.endlineno', 't.type', 't.lexer.lineno'])
